@@ -35,7 +35,7 @@ RULE = (
     "aliases, enums, members, messages, fields, options) and every reference (type and capacity references) of every parsed file, "
     "imported ones included, records lineno/token_col_start equal to the source map entry, 1-based; (1) main() for c/go/py (one "
     "language per case, all three on 1/6) with and without disable_linter: same exit status, same files, same bytes; (5) check-only "
-    "main(check=True): exit != 0 exactly when >= 1 warning is expected, always 0 with disable_linter; the real CLI `-c` / `-c -q` "
+    "main(check=True): exit != 0 exactly when >= 1 warning is expected, always 0 with disable_linter (-q leg on 1/3 of the cases); the real CLI `-c` / `-c -q` "
     "on a sample. Part 'errors': C08's single-violation mutants (bpverif.violations: one planted violation per catalogue entry, "
     "incl. inside imported files) with blank lines and comment blocks inserted at generated positions: the ParserError must cite "
     "the planted file and the shifted line (exact line / either duplicate / message extent as in C08), and check-only mode must "
@@ -141,6 +141,7 @@ class LintCase:
     labels: List[str]
     langs: List[str]
     with_cli: bool
+    quiet_check: bool = True
 
 
 @st.composite
@@ -230,7 +231,7 @@ def lint_cases(draw: Any) -> LintCase:
     maps = {fn: [(e.kind, e.token, e.line, e.col) for e in es] for fn, es in doc.maps.items()}
     r = draw(st.integers(0, (1 << 20) - 1)) % 30
     langs = LANGS if r % 6 == 5 else [LANGS[r % 3]]
-    return LintCase(doc.texts(), main.filename, maps, sorted(set(expect)), elsewhere, sorted(set(labels)), list(langs), r == 7)
+    return LintCase(doc.texts(), main.filename, maps, sorted(set(expect)), elsewhere, sorted(set(labels)), list(langs), r == 7, r % 3 == 1)
 
 
 def describe_lint(c: LintCase) -> Any:
@@ -340,7 +341,7 @@ def run_lint(c: LintCase, stats: Stats) -> None:
             if fn != c.main:
                 stats.count("pos:imported-file")
         # (5) check-only
-        for quiet in (False, True):
+        for quiet in (False, True) if c.quiet_check else (False,):
             stats.evaluations += 1
             res = bpapi.main_inprocess(path, check=True, disable_linter=quiet)
             want_fail = bool(c.expect) and not quiet
@@ -400,12 +401,13 @@ def run_lint(c: LintCase, stats: Stats) -> None:
 @dataclass
 class ErrorCase:
     mutant: V.Mutant
+    quiet_too: bool = True
 
 
 @st.composite
 def error_cases(draw: Any) -> ErrorCase:
     rule = V.RULES[draw(st.integers(0, (1 << 20) - 1)) % len(V.RULES)]
-    return ErrorCase(draw(V.mutants(rules=[rule], shift=True)))
+    return ErrorCase(draw(V.mutants(rules=[rule], shift=True)), draw(st.integers(0, 2)) == 1)
 
 
 def describe_error(c: ErrorCase) -> Any:
@@ -434,7 +436,7 @@ def run_error(c: ErrorCase, stats: Stats) -> None:
     try:
         bpapi.write_files(d, m.texts)
         path = os.path.join(d, m.main)
-        for quiet in (False, True):
+        for quiet in (False, True) if c.quiet_too else (False,):
             stats.evaluations += 1
             res = bpapi.main_inprocess(path, check=True, disable_linter=quiet)
             if res.exc is not None or res.code == 0:
@@ -466,6 +468,6 @@ def selftest() -> None:
 
 
 PARTS = [
-    HypPart("lint", lambda tier: lint_cases(), run_lint, {"quick": 2200, "thorough": 44000}, describe=describe_lint),
-    HypPart("errors", lambda tier: error_cases(), run_error, {"quick": 1600, "thorough": 32000}, describe=describe_error),
+    HypPart("lint", lambda tier: lint_cases(), run_lint, {"quick": 1500, "thorough": 30000}, describe=describe_lint),
+    HypPart("errors", lambda tier: error_cases(), run_error, {"quick": 1100, "thorough": 22000}, describe=describe_error),
 ]
